@@ -583,7 +583,13 @@ class Ctx:
             else:
                 self.env[t.id] = v if t.id not in self.env else join(self.env[t.id], v)
         elif isinstance(t, (ast.Tuple, ast.List)):
-            self.bind(t, v)
+            # unpacking: every element target is an assignment of its own (`out.values, smaller = other.values, self.values`)
+            if v.kind == "P" and len(v.items) == len(t.elts):
+                for tt, it in zip(t.elts, v.items):
+                    self.assign(tt, it, node)
+            else:
+                for tt in t.elts:
+                    self.assign(tt.value if isinstance(tt, ast.Starred) else tt, self.elem_of(v) if v.kind in ("L", "P", "D") else U, node)
         else:
             self.record_store(t, v, node, "elem" if isinstance(t, ast.Subscript) else "set")
 
